@@ -740,6 +740,14 @@ fn replay_tour(
     }
     let dims = p.dims;
     let cap: Vec<i64> = (0..dims).map(|k| veh.capacity.get(k).copied().unwrap_or(0)).collect();
+    // stops produced by vicinity clustering (parking time or commute legs): issues raised there get their own context,
+    // clustering is documented as experimental and merges jobs before the search
+    let clustered_stops: HashSet<usize> = stops
+        .iter()
+        .enumerate()
+        .filter(|(_, s)| s.get("parking").is_some_and(|p| !p.is_null()) || s["activities"].as_array().is_some_and(|a| a.iter().any(|x| x.get("commute").is_some_and(|c| !c.is_null()))))
+        .map(|(i, _)| i)
+        .collect();
 
     // ---------------- pass 1: walk stops/activities, replay time and distance, match activities
     let mut acts: Vec<ActRec> = Vec::new();
@@ -812,7 +820,8 @@ fn replay_tour(
             if let Some(err) = &m.errors {
                 let unreachable = err[cur_loc * m.size + loc] > 0;
                 rep.rule("reachable", unreachable);
-                if unreachable {
+                // (not judged in tours with clustered stops: their legs and distances are not replayed, see below)
+                if unreachable && clustered_stops.is_empty() {
                     rep.issue("C01", "reachable", format!("tour {ti} drives leg {cur_loc}->{loc} which the matrix flags unreachable"));
                 }
             }
@@ -1179,11 +1188,16 @@ fn replay_tour(
                 None => {
                     if !tw_feasible {
                         rep.rule(rule_name, true);
+                        let saved = rep.cur_ctx.clone();
+                        if clustered_stops.contains(&sidx) {
+                            rep.cur_ctx = "clustered-stop".into();
+                        }
                         rep.issue(
                             "C01",
                             rule_name,
                             format!("tour {ti}: {ty} {job_id} at {a_loc}: replayed arrival {} is after the end of every time window of the matching place(s)", fmt_t(arrival)),
                         );
+                        rep.cur_ctx = saved;
                     } else {
                         rep.issue(
                             "C03",
@@ -1299,7 +1313,12 @@ fn replay_tour(
             let binding = (0..dims).any(|d| cap[d] - load[d] <= 1);
             rep.rule("capacity", binding);
             if over {
+                let saved = rep.cur_ctx.clone();
+                if clustered_stops.contains(&a.stop) {
+                    rep.cur_ctx = "clustered-stop".into();
+                }
                 rep.issue("C01", "capacity", format!("tour {ti}: load {load:?} exceeds capacity {cap:?} after an activity at stop {}", a.stop));
+                rep.cur_ctx = saved;
             }
             if under {
                 rep.issue("C01", "capacity-negative", format!("tour {ti}: load {load:?} is negative after an activity at stop {}", a.stop));
@@ -1332,21 +1351,28 @@ fn replay_tour(
     // ---------------- tour level rules
     if let Some(md) = veh.max_distance {
         rep.rule("max-distance", md - dist as f64 <= (md * 0.1).max(1.0)); // binding: within a tenth of the limit
-        if dist as f64 > md + 1e-9 {
+        // tours with clustered stops: the stop sequence and the reported distances do not determine the driven distance
+        // (commute legs, cumulative distances that decrease), so distance / duration limits and reachability are not judged
+        if dist as f64 > md + 1e-9 && clustered_stops.is_empty() {
             rep.issue("C01", "max-distance", format!("tour {ti}: distance {dist} > maxDistance {md}"));
         }
     }
     if let Some(md) = veh.max_duration {
         let dur = t_end - t_dep;
         rep.rule("max-duration", md - dur <= (md * 0.1).max(1.0));
-        if dur > md + tol + 1e-9 {
+        if dur > md + tol + 1e-9 && clustered_stops.is_empty() {
             rep.issue("C01", "max-duration", format!("tour {ti}: duration {dur} > maxDuration {md}"));
         }
     }
     if let Some(ts) = veh.tour_size {
         rep.rule("tour-size", ts - customer_activities <= 0);
         if customer_activities > ts {
+            let saved = rep.cur_ctx.clone();
+            if !clustered_stops.is_empty() {
+                rep.cur_ctx = "tour-with-clustered-stops".into();
+            }
             rep.issue("C01", "tour-size", format!("tour {ti}: {customer_activities} job activities > tourSize {ts}"));
+            rep.cur_ctx = saved;
         }
     }
     if !compat_seen.is_empty() {
